@@ -95,7 +95,9 @@ impl Space {
                     EXTERIOR | GROUND => (area, area),
                     // Contactos con otros espacios no acondicionados o no habitables
                     INTERIOR => {
-                        w.next_to
+                        // El otro espacio es el adyacente si el elemento es de este espacio, o su propio espacio si está definido desde el otro lado
+                        let other_space = if w.space == self.id { w.next_to } else { Some(w.space) };
+                        other_space
                             .and_then(|nxts| spaces.iter().find(|s| s.id == nxts))
                             .and_then(|nextspace| {
                                 if self.kind == SpaceType::CONDITIONED
